@@ -30,8 +30,9 @@ done
 (cd /repo && go build ./... && go test -vet=off -count=1 ./... 2>&1 | grep -v '^ok\|no test files' | head -20)
 if ! git merge -q --no-edit b-$P; then
   # the only expected conflict: the property's own evidence file (rewritten on both sides)
-  if [ "$(git diff --name-only --diff-filter=U)" = "evidence/$P.json" ]; then
-    git checkout --theirs evidence/$P.json && git add evidence/$P.json && git commit -qm "Merge branch 'b-$P'"
+  if ! git diff --name-only --diff-filter=U | grep -qv '^evidence/C[0-9]*\.json$'; then
+    for f in $(git diff --name-only --diff-filter=U); do git checkout --theirs "$f" && git add "$f"; done
+    git commit -qm "Merge branch 'b-$P'"
   else echo "verif merge conflict"; git diff --name-only --diff-filter=U; exit 4; fi
 fi
 while read old new; do
